@@ -30,6 +30,7 @@ from ..flow import ERROR
 from ..model import AnchorError, Class, Func, UNKNOWN, UnknownIdiom, dotted, func_owner_class, short, walk_no_nested
 from .appflow import ASGI_CALL, WSGI_CALL, AppFlow
 from .common import implied, is_self_attr, nodes_within, single, strip_await, walk_self
+from .c01_helpers import aliased_view, inlined_view      # (function views: local aliases / plain helpers written out; also used by C01)
 
 APP = 'falcon.app.App'
 ASGI_APP = 'falcon.asgi.app.App'
@@ -199,29 +200,89 @@ def reaching_defs(cfg: CFG, defs: Dict[int, ast.AST], starts: Dict[int, FrozenSe
 
 
 class Dispatch:
-    """Anchors of App._get_responder."""
+    """Anchors of App._get_responder (read through plain helpers, see inlined_view).
+
+    The function hands back `(responder, params, resource, uri_template)`; every `return` is judged by itself: the
+    value of position k at a return is the expression written there, or - where the return names the local the
+    function uses for that position - what reaches it.  `defs(k)` is that as a definition table: the bindings of the
+    local, plus every return whose own element k is another expression (a loop variable such as the table entry's
+    object, `m.groupdict()`, `{}`, `None`) as a definition located at that return.  All of it is queried at the
+    function exit (`ret_node`), where every return arrives."""
 
     def __init__(self, run):
         p = run.project
         self.p = p
-        self.f = f = p.func(GETR)
+        self.orig = p.func(GETR)
+        self.f = f = inlined_view(p, self.orig)
         self.cfg = cfg = cfg_of(f, p)
         run.use_cfg(cfg)
-        rets = [n for n in walk_self(f.node) if isinstance(n, ast.Return)]
-        r = single(rets, 'return statement', GETR)
-        v = r.value
-        if not (isinstance(v, ast.Tuple) and len(v.elts) == 4 and all(isinstance(e, ast.Name) for e in v.elts[:3])):
-            raise UnknownIdiom('%s: return shape %s' % (GETR, short(v)))
-        self.v_responder, self.v_params, self.v_resource = [e.id for e in v.elts[:3]]
-        self.ret_node = single(cfg.nodes_for(r), 'return node', GETR)
         loops = [n for n in walk_self(f.node) if isinstance(n, (ast.For, ast.AsyncFor)) and any(_attr_named(x, TABLE) for x in walk_self(n.iter))]
         self.loop = single(loops, 'loop over self.%s' % TABLE, GETR)
         self.iter_node = single([i for i in cfg.nodes_for(self.loop) if cfg.node(i).kind == 'iter'], 'loop header', GETR)
         self.body = nodes_within(cfg, self.loop.body)
         t = self.loop.target
+        if isinstance(t, ast.Name) and self.loop.body:
+            # `for entry in table: matcher, obj, is_sink = entry` - the entry unpacked by the first statement of the body
+            # (and not looked at otherwise) is the same three loop variables
+            b0 = self.loop.body[0]
+            uses = [x for x in walk_self(f.node) if isinstance(x, ast.Name) and x.id == t.id]
+            if isinstance(b0, ast.Assign) and len(b0.targets) == 1 and isinstance(b0.value, ast.Name) and b0.value.id == t.id and len(uses) == 2:
+                t = b0.targets[0]
         if not (isinstance(t, ast.Tuple) and len(t.elts) == 3 and all(isinstance(e, ast.Name) for e in t.elts)):
-            raise UnknownIdiom('%s: loop target %s is not (matcher, object, is_sink)' % (GETR, short(t)))
-        self.v_matcher, self.v_obj, self.v_is_sink = [e.id for e in t.elts]
+            raise UnknownIdiom('%s: loop target %s is not (matcher, object, is_sink)' % (GETR, short(self.loop.target)))
+        self.v_matcher, self.v_obj, self.v_is_sink = loopvars = [e.id for e in t.elts]
+        rets = [n for n in walk_self(f.node) if isinstance(n, ast.Return)]
+        if not rets:
+            raise AnchorError('%s: no return statement' % GETR)
+        for r in rets:
+            v = r.value
+            if not (isinstance(v, ast.Tuple) and len(v.elts) == 4 and not any(isinstance(e, ast.Starred) for e in v.elts)):
+                raise UnknownIdiom('%s: return shape %s' % (GETR, short(v) if v is not None else 'return'))
+        if any(l != 'ret' for (x, l) in cfg.pred[cfg.exit] if x in cfg.reachable_ids):
+            raise UnknownIdiom('%s can fall off its end (no 4-tuple returned)' % GETR)
+        self.ret_nodes: Dict[int, ast.Return] = {i: r for r in rets for i in cfg.nodes_for(r)}
+        if not self.ret_nodes:
+            raise AnchorError('%s: no reachable return statement' % GETR)
+        self.names: List[Optional[str]] = []
+        for k in range(3):
+            names = sorted({r.value.elts[k].id for r in self.ret_nodes.values() if isinstance(r.value.elts[k], ast.Name) and r.value.elts[k].id not in loopvars})
+            if len(names) > 1:
+                raise UnknownIdiom('%s: position %d of the returned tuple is kept in several locals (%s)' % (GETR, k, ', '.join(names)))
+            self.names.append(names[0] if names else None)
+        self.v_responder, self.v_params, self.v_resource = self.names
+        if self.v_resource is None:
+            raise UnknownIdiom('%s: no return hands back the resource local' % GETR)
+        self.ret_node = cfg.exit
+        self._defs: Dict[int, Dict[int, ast.AST]] = {}
+
+    def is_match_call(self, e) -> bool:
+        """`<this entry's matcher>.match(...)`."""
+        return (isinstance(e, ast.Call) and isinstance(e.func, ast.Attribute) and e.func.attr == 'match'
+                and isinstance(e.func.value, ast.Name) and e.func.value.id == self.v_matcher)
+
+    def match_vars(self) -> Set[str]:
+        """Locals the loop body binds to the result of this entry's matcher (`m = matcher.match(path)`, `if m := ...`)."""
+        out = set()
+        for i in self.body:
+            n = self.cfg.node(i)
+            if n.kind == 'stmt' and isinstance(n.ast, ast.Assign) and len(n.ast.targets) == 1 and isinstance(n.ast.targets[0], ast.Name) \
+                    and self.is_match_call(n.ast.value):
+                out.add(n.ast.targets[0].id)
+            for x in n.walk():
+                if isinstance(x, ast.NamedExpr) and isinstance(x.target, ast.Name) and self.is_match_call(x.value):
+                    out.add(x.target.id)
+        return out
+
+    def defs(self, k: int) -> Dict[int, ast.AST]:
+        if k not in self._defs:
+            name = self.names[k]
+            out = dict(_defs_of(self.cfg, name)) if name else {}
+            for nid, r in self.ret_nodes.items():
+                e = r.value.elts[k]
+                if not (isinstance(e, ast.Name) and e.id == name):
+                    out[nid] = e
+            self._defs[k] = out
+        return self._defs[k]
 
 
 def _dispatch(run) -> Dispatch:
@@ -322,7 +383,7 @@ def r1_route_masks(run):
               'for %s in %s' % (short(d.loop.target), short(d.loop.iter)), where=f.loc(d.loop), witness=wit,
               runtime_witness='a request matching both a route and a sink prefix is answered by the sink')
     # (b) first match wins: an assignment of the responder inside the loop leaves the loop
-    defs = _defs_of(cfg, d.v_responder)
+    defs = d.defs(0)
     inner = [n for n in defs if n in d.body]
     if not inner:
         raise AnchorError('%s: the scan never assigns the responder' % GETR)
@@ -335,19 +396,14 @@ def r1_route_masks(run):
         run.check(isinstance(v, ast.Name) and v.id == d.v_obj, 'the matched table entry\'s own object becomes the responder', f, cfg.node(n).ast,
                   where='%s:%s' % (f.file, cfg.node(n).lineno))
         # and only under a truthy match of this entry's matcher
-        mvars = [k for k, val in ((cfg.node(i).ast.targets[0].id, cfg.node(i).ast.value) for i in d.body
-                                  if cfg.node(i).kind == 'stmt' and isinstance(cfg.node(i).ast, ast.Assign) and len(cfg.node(i).ast.targets) == 1
-                                  and isinstance(cfg.node(i).ast.targets[0], ast.Name))
-                 if isinstance(val, ast.Call) and isinstance(val.func, ast.Attribute) and val.func.attr == 'match'
-                 and isinstance(val.func.value, ast.Name) and val.func.value.id == d.v_matcher]
+        mvars = d.match_vars()
 
         def is_match(e):
             if isinstance(e, ast.Name) and e.id in mvars:
                 return True
             if isinstance(e, ast.NamedExpr):
                 return is_match(e.value)
-            return (isinstance(e, ast.Call) and isinstance(e.func, ast.Attribute) and e.func.attr == 'match'
-                    and isinstance(e.func.value, ast.Name) and e.func.value.id == d.v_matcher)
+            return d.is_match_call(e)
 
         medges = _truth_edges(cfg, is_match, True)
         run.check(bool(medges) and n not in flow.reachable(cfg, [d.iter_node], avoid_edges=medges, avoid_nodes=[]), 'an entry is selected only when its matcher matched the path',
@@ -375,7 +431,14 @@ def r1_route_masks(run):
         raise AnchorError('%s: no branch on the resource being found' % GETR)
     routed = reaching_defs(cfg, defs, {e[1]: frozenset() for e in some})
     got = routed.get(d.ret_node, frozenset())
-    bad = [x for x in got if not (is_default(defs[x], BAD_REQ) or (isinstance(defs[x], ast.Subscript) and isinstance(defs[x].value, ast.Name)))]
+    def routed_value(v) -> bool:
+        # the method-map entry `mm[method]`, the invalid-method default, or both in one: `mm.get(method, <the default>)`
+        if is_default(v, BAD_REQ) or (isinstance(v, ast.Subscript) and isinstance(v.value, ast.Name)):
+            return True
+        return (isinstance(v, ast.Call) and isinstance(v.func, ast.Attribute) and v.func.attr == 'get' and isinstance(v.func.value, ast.Name)
+                and len(v.args) == 2 and not v.keywords and is_default(v.args[1], BAD_REQ))
+
+    bad = [x for x in got if not routed_value(defs[x])]
     run.check(bool(got) and not bad, 'a matched route answers with its method-map entry (or the invalid-method default), never with a fallback', f,
               cfg.node(bad[0]).ast if bad else 'routed branch', where=f.loc(),
               witness=[cfg.node(x).text() for x in got] or ['no definition of the responder reaches the return'])
@@ -459,6 +522,9 @@ class Tables:
         self.rebuild_stores: List[Tuple[Func, ast.AST, ast.AST]] = []  # (func, stmt, value)
         self.table_other: List[Tuple[Func, ast.AST]] = []
         for f in list(p.all_functions()):
+            if not any(isinstance(x, ast.Attribute) and x.attr in (SINKS, STATICS, TABLE) for x in walk_no_nested(f.node)):
+                continue
+            f = aliased_view(p, f)      # (`sinks = self._sinks; sinks.insert(0, entry)` is an insertion into self._sinks)
             for n in walk_no_nested(f.node):
                 if isinstance(n, ast.Call) and isinstance(n.func, ast.Attribute) and isinstance(n.func.value, ast.Attribute) \
                         and n.func.value.attr in (SINKS, STATICS, TABLE) and n.func.attr in MUTATORS:
@@ -1031,6 +1097,7 @@ def _registration_always_inserts(run, t: 'Tables'):
     memo: Dict[Tuple[str, str], Optional[bool]] = {}
 
     def ins_nodes(f: Func, which: str, stack: Tuple[str, ...]):
+        f = aliased_view(p, f)      # (the Func the table census recorded the insertions under)
         cfg = cfg_of(f, p)
         run.use_cfg(cfg)
         direct = [call for (w, _pol, g, call) in t.insertions if g is f and w == which]
@@ -1257,6 +1324,26 @@ def r3_refresh(run):
 # R4 Allow computation
 # ---------------------------------------------------------------------------
 
+def _header_writes(p, g: Func, resp: str, c: ast.Call) -> Optional[List[Tuple[str, ast.AST, ast.AST]]]:
+    """What a call on the response object writes: [(kind, header name expression, value expression)] with kind
+    'set_header' / 'append_header'; `resp.set_headers(<dict display | list / tuple display of pairs>)` is one
+    set_header per item, in order.  [] for a call that writes no header; None for a set_headers() whose argument is not
+    such a display (what it writes is not read)."""
+    fn = dotted(c.func)
+    if fn in (resp + '.set_header', resp + '.append_header') and len(c.args) == 2 and not c.keywords:
+        return [(c.func.attr, c.args[0], c.args[1])]
+    if fn == resp + '.set_headers':
+        if len(c.args) != 1 or c.keywords:
+            return None
+        a = c.args[0]
+        if isinstance(a, ast.Dict) and all(k is not None for k in a.keys):
+            return [('set_header', k, v) for k, v in zip(a.keys, a.values)]
+        if isinstance(a, (ast.List, ast.Tuple)) and all(isinstance(x, (ast.Tuple, ast.List)) and len(x.elts) == 2 for x in a.elts):
+            return [('set_header', x.elts[0], x.elts[1]) for x in a.elts]
+        return None
+    return []
+
+
 def _closure_language(run, g: Func, param0: str, joined: Set[str]):
     p = run.project
     cfg = cfg_of(g, p)
@@ -1281,9 +1368,12 @@ def _closure_language(run, g: Func, param0: str, joined: Set[str]):
             v = p.fold(g.module, n.ast.value, None, g)
             out.append('status=%s' % (v if v is not UNKNOWN else short(n.ast.value)))
         for c in n.calls():
-            if resp and dotted(c.func) in (resp + '.set_header', resp + '.append_header') and len(c.args) == 2:
-                k = p.fold(g.module, c.args[0], None, g)
-                out.append('%s(%s,%s)' % (c.func.attr, k.lower() if isinstance(k, str) else short(c.args[0]), norm(c.args[1])))
+            hw = _header_writes(p, g, resp, c) if resp else []
+            if hw is None:
+                raise UnknownIdiom('%s: headers written by %s are not read' % (g.qual, short(c, 60)))
+            for (kind, ke, ve) in hw:
+                k = p.fold(g.module, ke, None, g)
+                out.append('%s(%s,%s)' % (kind, k.lower() if isinstance(k, str) else short(ke), norm(ve)))
         return out
 
     # (flow.project indexes the exit nodes unconditionally: only ask for the ones that are live)
@@ -1332,6 +1422,24 @@ def _allow_value_shape(v, lst: str):
     return None
 
 
+def _returned_closures(fac: Func) -> List[Func]:
+    """The nested defs a responder factory hands back (`return <name>`); a nested def the closures merely call is a
+    helper of theirs (read in place, see inlined_view), not a responder."""
+    names = {n.value.id for n in walk_self(fac.node) if isinstance(n, ast.Return) and isinstance(n.value, ast.Name)}
+    return [g for k, g in fac.nested.items() if g.node.name in names]
+
+
+def _unread_escape(p, g: Func, names: List[str], what: str):
+    """The closure `g` (already seen through its plain helpers) hands one of `names` to a function of the analysed tree
+    that was not read in place: what happens to it there is not known to the rule (exit 2, never a verdict)."""
+    for c in walk_self(g.node):
+        if not isinstance(c, ast.Call):
+            continue
+        handed = [a for a in list(c.args) + [k.value for k in c.keywords] if isinstance(a, ast.Name) and a.id in names]
+        if handed and isinstance(p.callee(g, c), Func):
+            raise UnknownIdiom('%s hands %s to %s, which is not a helper the rule reads in place' % (g.qual, what, short(c, 60)))
+
+
 def _factory_snapshots_param(fna: Func) -> bool:
     """The 405 factory takes a list()/tuple()/sorted() copy of its first
     parameter once in its own body and no closure mentions the parameter
@@ -1350,7 +1458,7 @@ def _factory_snapshots_param(fna: Func) -> bool:
 
 def r4_allow(run):
     p = run.project
-    f = p.func(UTIL + '.set_default_responders')
+    f = aliased_view(p, p.func(UTIL + '.set_default_responders'))      # (local aliases of attribute chains written out; a helper building the list is read below)
     cfg = cfg_of(f, p)
     run.use_cfg(cfg)
     params = f.params()
@@ -1441,13 +1549,19 @@ def r4_allow(run):
         run.check(not extra, 'no other method is filtered out of the Allow list', cf, extra[0] if extra else lval)
     # path that installs the automatic OPTIONS responder
 
+    def is_options(e) -> bool:
+        # the literal, or a module-level / class-level constant holding it (`_OPTIONS = 'OPTIONS'`)
+        if isinstance(e, ast.Constant):
+            return e.value == 'OPTIONS'
+        return isinstance(e, (ast.Name, ast.Attribute)) and p.fold(f.module, e, None, f) == 'OPTIONS'
+
     def is_opt_missing(e):
-        return (isinstance(e, ast.Compare) and len(e.ops) == 1 and isinstance(e.ops[0], ast.NotIn) and isinstance(e.left, ast.Constant)
-                and e.left.value == 'OPTIONS' and isinstance(e.comparators[0], ast.Name) and e.comparators[0].id == mm)
+        return (isinstance(e, ast.Compare) and len(e.ops) == 1 and isinstance(e.ops[0], ast.NotIn) and is_options(e.left)
+                and isinstance(e.comparators[0], ast.Name) and e.comparators[0].id == mm)
 
     def is_opt_present(e):
-        return (isinstance(e, ast.Compare) and len(e.ops) == 1 and isinstance(e.ops[0], ast.In) and isinstance(e.left, ast.Constant)
-                and e.left.value == 'OPTIONS' and isinstance(e.comparators[0], ast.Name) and e.comparators[0].id == mm)
+        return (isinstance(e, ast.Compare) and len(e.ops) == 1 and isinstance(e.ops[0], ast.In) and is_options(e.left)
+                and isinstance(e.comparators[0], ast.Name) and e.comparators[0].id == mm)
 
     missing = _truth_edges(cfg, is_opt_missing, True, neg=is_opt_present)
     if not missing:
@@ -1460,10 +1574,10 @@ def r4_allow(run):
 
     def adds_options(n):
         for c in n.calls():
-            if isinstance(c.func, ast.Attribute) and c.func.attr == 'append' and len(c.args) == 1 and isinstance(c.args[0], ast.Constant) and c.args[0].value == 'OPTIONS':
+            if isinstance(c.func, ast.Attribute) and c.func.attr == 'append' and len(c.args) == 1 and is_options(c.args[0]):
                 return True
         if n.kind == 'stmt' and isinstance(n.ast, ast.AugAssign) and isinstance(n.ast.value, (ast.List, ast.Tuple)) and len(n.ast.value.elts) == 1 \
-                and isinstance(n.ast.value.elts[0], ast.Constant) and n.ast.value.elts[0].value == 'OPTIONS':
+                and is_options(n.ast.value.elts[0]):
             return True
         return False
 
@@ -1506,26 +1620,36 @@ def r4_allow(run):
             stores[n.id] = n.ast
     ovar = on.ast.targets[0].id if isinstance(on.ast, ast.Assign) and isinstance(on.ast.targets[0], ast.Name) else None
     nvar = nn.ast.targets[0].id if isinstance(nn.ast, ast.Assign) and isinstance(nn.ast.targets[0], ast.Name) else None
-    o_store = [i for i, s in stores.items() if isinstance(s.targets[0].slice, ast.Constant) and s.targets[0].slice.value == 'OPTIONS'
+    o_store = [i for i, s in stores.items() if is_options(s.targets[0].slice)
                and ((isinstance(s.value, ast.Name) and s.value.id == ovar) or s.value is ocall)]
-    path = flow.find_path(cfg, [y for (y, l) in cfg.succ[on.id] if l != 'exc'], [cfg.exit], avoid_nodes=o_store, edge_filter=flow.no_exc)
+    # (the creating statement may itself be the store: `method_map['OPTIONS'] = create_default_options(...)`)
+    path = None if on.id in o_store else flow.find_path(cfg, [y for (y, l) in cfg.succ[on.id] if l != 'exc'], [cfg.exit], avoid_nodes=o_store, edge_filter=flow.no_exc)
     run.check(bool(o_store) and path is None, 'the automatic responder is installed under "OPTIONS"', f, ocall)
     n_store = [i for i, s in stores.items() if (isinstance(s.value, ast.Name) and s.value.id == nvar) or s.value is ncall]
     guarded = []
     for i in n_store:
         s = stores[i]
         key = s.targets[0].slice
-        edges = _truth_edges(cfg, lambda e: isinstance(e, ast.Compare) and len(e.ops) == 1 and isinstance(e.ops[0], ast.NotIn) and short(e.left) == short(key)
-                             and isinstance(e.comparators[0], ast.Name) and e.comparators[0].id == mm, True)
+
+        def key_cmp(e, op, key=key):
+            return (isinstance(e, ast.Compare) and len(e.ops) == 1 and isinstance(e.ops[0], op) and short(e.left) == short(key)
+                    and isinstance(e.comparators[0], ast.Name) and e.comparators[0].id == mm)
+
+        edges = _truth_edges(cfg, lambda e: key_cmp(e, ast.NotIn), True, neg=lambda e: key_cmp(e, ast.In))
         guarded.append(bool(edges) and i not in flow.reachable(cfg, [cfg.entry], avoid_edges=edges))
-    run.check(bool(n_store) and all(guarded), 'the 405 responder fills only the methods the resource does not implement', f, ncall)
+    # `method_map.setdefault(<method>, <the 405 responder>)` stores exactly when the key is missing: a guarded store by itself
+    n_setdefault = [n.id for n in cfg.live_nodes() for c in n.calls()
+                    if isinstance(c.func, ast.Attribute) and c.func.attr == 'setdefault' and isinstance(c.func.value, ast.Name) and c.func.value.id == mm
+                    and len(c.args) == 2 and not c.keywords and ((isinstance(c.args[1], ast.Name) and c.args[1].id == nvar) or c.args[1] is ncall)]
+    run.check(bool(n_store or n_setdefault) and all(guarded), 'the 405 responder fills only the methods the resource does not implement', f, ncall)
     # factories: sync and async closures agree; their content
     for fac, what in ((fna, '405'), (fopt, 'OPTIONS')):
-        closures = list(fac.nested.values())
+        closures = _returned_closures(fac)
         if len(closures) != 2 or {g.is_async for g in closures} != {True, False}:
             raise AnchorError('%s: expected one sync and one async closure' % fac.qual)
         fparams = fac.params()
-        langs = [(g,) + _closure_language(run, g, fparams[0], set()) for g in closures]
+        # (each closure is read with the statements of a plain helper it calls in place of the call)
+        langs = [(g,) + _closure_language(run, inlined_view(p, g), fparams[0], set()) for g in closures]
         diff = flow.language_diff(langs[0][1], langs[1][1])
         run.check(diff is None, 'the sync and async default %s responders make the same raise / status / header events' % what, langs[0][0],
                   'sync-vs-async ' + fac.qual, where=fac.loc(), witness=[str(diff)] if diff else None)
@@ -1579,21 +1703,33 @@ def r4_allow(run):
         return (v is not None and isinstance(v, ast.Call) and isinstance(v.func, ast.Name) and v.func.id in ('list', 'tuple')
                 and len(v.args) == 1 and not v.keywords and isinstance(v.args[0], ast.Name) and v.args[0].id == naparams[0])
 
-    for g in fna.nested.values():
+    for g0 in _returned_closures(fna):
+        g = inlined_view(p, g0)
         raises = [n for n in walk_self(g.node) if isinstance(n, ast.Raise)]
+        if not raises:
+            _unread_escape(p, g, [naparams[0]], 'the method list')
         ok = len(raises) == 1 and isinstance(raises[0].exc, ast.Call) and is_405_class(g, raises[0].exc.func) \
             and len(raises[0].exc.args) == 1 and not raises[0].exc.keywords and is_method_list(raises[0].exc.args[0])
         run.check(ok, 'the default 405 responder raises HTTPMethodNotAllowed with the factory\'s method list', g, raises[0] if raises else g.node.name)
     # OPTIONS closure: 200 + Allow: <snapshot>
     status200 = p.fold(fopt.module, ast.Name('HTTP_200', ast.Load()), None, None)
-    for g in fopt.nested.values():
+    for g0 in _returned_closures(fopt):
+        g = inlined_view(p, g0)
         gp = g.params()
+        if len(gp) < 2:
+            raise UnknownIdiom('%s signature' % g.qual)
         resp = gp[1]
-        allow_sets = [c for c in walk_self(g.node) if isinstance(c, ast.Call) and dotted(c.func) == resp + '.set_header' and len(c.args) == 2
-                      and isinstance(p.fold(g.module, c.args[0], None, g), str) and p.fold(g.module, c.args[0], None, g).lower() == 'allow']
-        ok = len(allow_sets) == 1 and isinstance(allow_sets[0].args[1], ast.Name) and allow_sets[0].args[1].id in joined
-        run.check(ok, 'the automatic OPTIONS responder sets Allow to the snapshot of the method list', g, allow_sets[0] if allow_sets else g.node.name,
-                  where=g.loc(allow_sets[0]) if allow_sets else g.loc())
+        _unread_escape(p, g, [resp], 'the response object')
+        allow_sets = []         # (call, value) of every `set_header('Allow', value)` (also as an item of set_headers({...}))
+        for c in walk_self(g.node):
+            if isinstance(c, ast.Call):
+                for (kind, ke, ve) in (_header_writes(p, g, resp, c) or []):
+                    k = p.fold(g.module, ke, None, g)
+                    if kind == 'set_header' and isinstance(k, str) and k.lower() == 'allow':
+                        allow_sets.append((c, ve))
+        ok = len(allow_sets) == 1 and isinstance(allow_sets[0][1], ast.Name) and allow_sets[0][1].id in joined
+        run.check(ok, 'the automatic OPTIONS responder sets Allow to the snapshot of the method list', g, allow_sets[0][0] if allow_sets else g.node.name,
+                  where=g.loc(allow_sets[0][0]) if allow_sets else g.loc())
         sts = [n for n in walk_self(g.node) if isinstance(n, ast.Assign) and any(dotted(t) == resp + '.status' for t in n.targets)]
         vals = [p.fold(g.module, s.value, None, g) for s in sts]
         run.check(all(isinstance(v, str) and v.startswith('200') for v in vals), 'the automatic OPTIONS responder answers 200', g, sts[0] if sts else g.node.name,
@@ -2096,7 +2232,7 @@ def _mentions_groupdict(v, resolve_name, _seen=None) -> bool:
 
 def r5_suffix_kwargs(run):
     p = run.project
-    f = p.func(UTIL + '.map_http_methods')
+    f = inlined_view(p, p.func(UTIL + '.map_http_methods'))      # (local aliases / plain helpers written out)
     cfg = cfg_of(f, p)
     run.use_cfg(cfg)
     params = f.params()
@@ -2172,7 +2308,7 @@ def r5_suffix_kwargs(run):
     # sink kwargs
     d = _dispatch(run)
     g, gcfg = d.f, d.cfg
-    pdefs = _defs_of(gcfg, d.v_params)
+    pdefs = d.defs(1)
     if not pdefs:
         raise AnchorError('%s never assigns its params' % GETR)
     sink_edges = _truth_edges(gcfg, lambda e: isinstance(e, ast.Name) and e.id == d.v_is_sink, True)
@@ -2187,13 +2323,21 @@ def r5_suffix_kwargs(run):
             return ds[0] if len(ds) == 1 and isinstance(ds[0], ast.expr) else None
         return resolve
 
-    def own_match(src):
-        return isinstance(src, ast.Name) and any(
-            gcfg.node(i).kind == 'stmt' and isinstance(gcfg.node(i).ast, ast.Assign) and any(isinstance(t, ast.Name) and t.id == src.id for t in gcfg.node(i).ast.targets)
-            and isinstance(gcfg.node(i).ast.value, ast.Call) and isinstance(gcfg.node(i).ast.value.func, ast.Attribute) and gcfg.node(i).ast.value.func.attr == 'match'
-            and isinstance(gcfg.node(i).ast.value.func.value, ast.Name) and gcfg.node(i).ast.value.func.value.id == d.v_matcher for i in d.body)
+    match_vars = d.match_vars()
 
+    def own_match(src):
+        return isinstance(src, ast.Name) and src.id in match_vars
+
+    is_sink_cls = _pred_classifier(lambda e: isinstance(e, ast.Name) and e.id == d.v_is_sink)
+    arms: List[Tuple[int, ast.AST, Optional[bool]]] = []      # (node, value, is_sink known there from a conditional expression)
     for nid, v in pdefs.items():
+        # `params = m.groupdict() if is_sink else {}`: each arm is a value of its own, chosen under what its test says about is_sink
+        if isinstance(v, ast.IfExp) and edge_truth(v.test, True, is_sink_cls) is not None and edge_truth(v.test, False, is_sink_cls) is not None:
+            arms.append((nid, v.body, edge_truth(v.test, True, is_sink_cls)))
+            arms.append((nid, v.orelse, edge_truth(v.test, False, is_sink_cls)))
+        else:
+            arms.append((nid, v, None))
+    for nid, v, arm_sink in arms:
         node = gcfg.node(nid)
         if isinstance(v, ast.Dict) and not v.keys:
             run.ok('params default to an empty dict', g.loc(node.ast), node.ast)
@@ -2205,7 +2349,9 @@ def r5_suffix_kwargs(run):
         elif isinstance(v, ast.expr) and _mentions_groupdict(v, resolver(nid)):
             n_gd += 1
             gd_nodes.append(nid)
-            run.check(nid in d.body and bool(sink_edges) and nid not in flow.reachable(gcfg, [d.iter_node], avoid_edges=sink_edges),
+            on_sink_branch = arm_sink is True if arm_sink is not None else \
+                (bool(sink_edges) and nid not in flow.reachable(gcfg, [d.iter_node], avoid_edges=sink_edges))
+            run.check(nid in d.body and on_sink_branch,
                       'regex named groups become kwargs on the sink branch only', g, node.ast,
                       runtime_witness='a static route entry (whose matcher returns a bool) asked for .groupdict()')
             # what the expression makes of the match's named groups, on a finite domain of groupdict() results
@@ -2235,7 +2381,7 @@ def r5_suffix_kwargs(run):
     # a selected entry either is known not to be a sink or has had its named groups taken:
     # no path  loop header -> selection -> out of the loop  avoids both the groupdict
     # assignment and every edge on which is_sink is known to be false
-    inner = [n for n in _defs_of(gcfg, d.v_responder) if n in d.body]
+    inner = [n for n in d.defs(0) if n in d.body]
     outside = {i for i in gcfg.reachable_ids if i not in d.body and i != d.iter_node}
     not_sink = _truth_edges(gcfg, lambda e: isinstance(e, ast.Name) and e.id == d.v_is_sink, False)
     starts = [y for (y, l) in gcfg.succ[d.iter_node] if l == 'next']
@@ -2292,8 +2438,8 @@ def r12_sink_prefix_identity(run):
     /API/Users falls through to an older sink or to 404."""
     p = run.project
     t = _tables(run)
-    base = p.func(APP + '.add_sink')
-    funcs = [base] + [p.classes[cq].methods['add_sink'] for cq in sorted(p.subclasses(APP)) if cq != APP and 'add_sink' in p.classes[cq].methods]
+    base = aliased_view(p, p.func(APP + '.add_sink'))
+    funcs = [base] + [aliased_view(p, p.classes[cq].methods['add_sink']) for cq in sorted(p.subclasses(APP)) if cq != APP and 'add_sink' in p.classes[cq].methods]
     for f in funcs:
         if 'prefix' not in f.params():
             raise AnchorError('%s has no `prefix` parameter' % f.qual)
